@@ -6,6 +6,9 @@ R2 counter sites: each counter is updated exactly once per accepted entry / writ
    with the right operand, never on a refusal path; offsets/sizes of the index block stored
    after the join; option-derived fields stored at init; no other function stores to the
    writer's trailer fields.
+R3 width agreement (rules/widths.py): the nine trailer fields and the writer's offset cursor are
+   declared 64 bits wide, and no value derived from them - through locals, parameters and function
+   results, across the library and the tools - is converted to fewer than 64 bits.
 """
 import re
 from .common import *
@@ -299,3 +302,9 @@ def run(ctx, res):
             continue
         for n, lhs in field_stores(g, "mtbl_metadata"):
             res.bad("C10.R2", "%s:stores:%s" % (g.name, lhs["field"]), "%s stores trailer field %s" % (g.name, lhs["field"]), g.loc(n))
+
+    # ---- R3 width agreement -------------------------------------------------------------------
+    from . import widths
+    res.floor("C10.R3", 12)
+    widths.width_flow(ctx, res, "C10.R3", "C10")
+    widths.selftest(ctx, "C10")
